@@ -204,12 +204,12 @@ func modMathFact(ctx *Ctx, buf *any, val any, args []any) (err error) {
 	return
 }
 
-func modMathMax(ctx *Ctx, buf *any, _ any, args []any) (err error) {
+func modMathMax(ctx *Ctx, buf *any, val any, args []any) (err error) {
 	var (
 		f, d float64
 		ok   bool
 	)
-	if f, d, err, ok = mathConvArgs2(args); !ok {
+	if f, d, err, ok = mathConvArgs2(val, args); !ok {
 		return
 	}
 	ctx.BufF = math.Max(f, d)
@@ -217,12 +217,12 @@ func modMathMax(ctx *Ctx, buf *any, _ any, args []any) (err error) {
 	return
 }
 
-func modMathMin(ctx *Ctx, buf *any, _ any, args []any) (err error) {
+func modMathMin(ctx *Ctx, buf *any, val any, args []any) (err error) {
 	var (
 		f, d float64
 		ok   bool
 	)
-	if f, d, err, ok = mathConvArgs2(args); !ok {
+	if f, d, err, ok = mathConvArgs2(val, args); !ok {
 		return
 	}
 	ctx.BufF = math.Min(f, d)
@@ -265,9 +265,11 @@ func mathConv2(val any, args []any) (float64, float64, error, bool) {
 	return f, d, nil, true
 }
 
-func mathConvArgs2(args []any) (float64, float64, error, bool) {
+// mathConvArgs2 picks the operands of the symmetric two-operand modifiers: both arguments of the function-call
+// form (math::max(a, b)), or value and argument of the pipe form (a|math::max(b)).
+func mathConvArgs2(val any, args []any) (float64, float64, error, bool) {
 	if len(args) < 2 {
-		return 0, 0, ErrModPoorArgs, false
+		return mathConv2(val, args)
 	}
 	d, ok := floatConv(args[0])
 	if !ok {
